@@ -674,7 +674,7 @@ def _find_dependencies(component, output_owners, target_time):
             if isinstance(inp, NoDependencyAdapter):
                 break
             if isinstance(inp, ITimeDelayAdapter):
-                local_time = inp.with_delay(target_time)
+                local_time = inp.with_delay(local_time)
                 delayed = True
 
         if not isinstance(inp, NoDependencyAdapter) and not inp.is_static:
